@@ -74,7 +74,8 @@ def judge(ctx, vk, dom, Q, sig, fmt, digest, allow_truncate, cls, key, cname, d=
         outcome = "BadDigestError"
     except Exception as ex:
         outcome = "raised %s: %s" % (type(ex).__name__, ex)
-    ctx.case(cls, key="%s|%s|%s|%s" % (key, fmt, want, "t" if allow_truncate else "f"))
+    ctx.case(cls, key="%s|%s|%s|%s" % (key, fmt, want, "t" if allow_truncate else "f"),
+             sample=dict(curve=cname, Q=Q, digest=digest, signature=sig if not isinstance(sig, tuple) else list(sig), decoder=fmt, decoded=rs, expected=want, library=outcome) if ctx.want(cls) else None)
     if outcome != want:
         if want == "reject" and outcome == "accept":
             mech = "forgery_accepted"
